@@ -130,6 +130,15 @@ def ref_job(job):
             rfirst = f"$g.results.{os.path.basename(first['run_dir'])[:4]}:first.src"
             out["first_file"], out["replayed_first"] = replay("replay1", rfirst, first["lines"])
             out["first"] = first
+            # member identities with a dot: the reference's last part is the whole identity
+            paths.paths_manager.add_named_paths(name="dot", paths=['~id: cl~ $[*][ yes() ]', '~id: cl.x~ $[1*][ yes() ]'])
+            c10.set_clock((2026, 5, 6, 7, 9, 30))
+            paths.collect_paths(pathsname="dot", filename="f0")
+            dres = {r.csvpath.identity: [list(l) for l in r.lines.next()] for r in paths.results_manager.get_named_results("dot")}
+            out["dot"] = {}
+            for ident in ("cl", "cl.x"):
+                _, got = replay("rd" + ident.replace(".", "_"), f"$dot.results.2026:last.{ident}", dres[ident])
+                out["dot"][ident] = {"want": dres[ident], "got": got}
             # a group replaying its own most recent run (the reference names the group that is running)
             paths.paths_manager.add_named_paths(name="selfg", paths=['~id: src~ $[*][ yes() ]'])
             c10.set_clock((2026, 5, 6, 7, 10, 0))
@@ -266,6 +275,11 @@ def run(ctx):
             ctx.known(f"{SIG_D26}: a group cannot replay its own most recent run: the ':last' reference is resolved again after the new run's directory exists ({self_exc[0][1]['exc'][:90]}; {len(self_exc)} scenarios this run)")
         else:
             ctx.violation("self-replay", {"what": "a results reference naming the running group's own most recent run raises instead of replaying that run's data.csv", "case": {"rows": self_exc[0][0], **self_exc[0][1]}, "scenarios": len(self_exc)})
+    for (jid, nruns, rl), o in zip(rjobs, rres):
+        for ident, x in (o.get("dot") or {}).items():
+            if not o["exc"] and x["got"] is not None and x["got"] != x["want"]:
+                fails.append({"kind": f"a results reference to the member with identity '{ident}' did not replay that member's data.csv", "rows": rl, "identity": ident, **x})
+                break
     if self_bad:
         fails.append({"kind": "a group replaying its own most recent run did not read that run's data.csv", "rows": self_bad[0][0], **self_bad[0][1]})
     empty_refs = [(rl, x) for (jid, nruns, rl), o in zip(rjobs, rres) if not o["exc"] for x in (o.get("empty_ref") or [])]
@@ -285,7 +299,7 @@ def run(ctx):
         "evaluations": len(jobs) + len(sjobs) + len(rjobs), "distinct_nontrivial": len(nontrivial) + sum(1 for o in rres if not o["exc"]),
         "rule": "chains of 2-4 generated filter csvpaths (10 filter forms, scan windows, side-effect components) with source-mode: preceding on each later member with probability 0.7, over files "
                 "with hostile cells and blank records; every member compared with its standalone run over the input the model prescribes; reference scenarios: group g run 1-3 times over "
-                "different files, then a csvpath reading $g.variables.total/.last/.b.x (tracking), $g.headers.b and $h.variables.total, a results reference by run-dir name, by ':last' and by ':first'. "
+                "different files, then a csvpath reading $g.variables.total/.last/.b.x (tracking), $g.headers.b and $h.variables.total, a results reference by run-dir name, by ':last' and by ':first', references to members whose identity contains a dot, a group replaying its own last run. "
                 "Non-trivial = chains where a preceding member collected some but not all of its predecessor's lines + reference scenarios completed.",
         "samples": [{"group": jobs[0]["groups"]["g"], "rows": meta[0][2]}],
         "chains": len(jobs), "stage_comparisons": judged, "reference_scenarios": len(rjobs), "empty_stage_chains": len(d14), "failures": len(fails),
